@@ -5,14 +5,81 @@ One response per line: ok <canonical result>   |   err
 -/
 import TonVerif.Basic
 import TonVerif.Model.Crc
+import TonVerif.Model.Cell
+import TonVerif.Spec.Cell
+import TonVerif.Sha256
 
-open TonVerif
+open TonVerif TonVerif.Model
 
 def hexArg (s : String) : Option Bytes := if s == "-" then some [] else bytesOfHex? s
 
 def optHex : Option Bytes → String
   | some bs => "ok " ++ (if bs.isEmpty then "-" else hexOfBytes bs)
   | none => "err"
+
+def sha := Sha256.sha256
+
+def dashHex (bs : Bytes) : String := if bs.isEmpty then "-" else hexOfBytes bs
+
+def parseBits (s : String) : Option Bits := if s == "-" then some [] else bitsOfString? s
+
+def parseNatList (s : String) (sep : String := ".") : Option (List Nat) :=
+  if s == "-" then some [] else (s.splitOn sep).mapM String.toNat?
+
+/-- node syntax: `kind,bits,refs` e.g. `-1,0101,0.2` ; `-` for empty bits / no refs -/
+def parseNode (s : String) : Option (Int × Bits × List Nat) :=
+  match s.splitOn "," with
+  | [k, b, r] => do
+    let kind ← k.toInt?
+    let bits ← parseBits b
+    let refs ← parseNatList r
+    pure (kind, bits, refs)
+  | _ => none
+
+/-- evaluate a DAG given child-before-parent; each node once. -/
+def evalDag (nodes : List (Int × Bits × List Nat)) : Array (Option CellInfo) :=
+  nodes.foldl (fun acc (kind, bits, refs) =>
+    let kids : Option (List CellInfo) := refs.mapM (fun i => (acc[i]?).join)
+    acc.push (kids.bind (fun ks => construct sha kind bits ks))) #[]
+
+def showInfo (i : CellInfo) (kids : List CellInfo) : String :=
+  let hs := (List.range 4).map (fun l => match i.getHash l with | some h => dashHex h | none => "x")
+  let ds := (List.range 4).map (fun l => match i.getDepth l with | some d => toString d | none => "x")
+  let rep := match representation i kids with | some r => hexOfBytes (sha r) | none => "x"
+  s!"{i.mask}:{".".intercalate hs}:{".".intercalate ds}:{hexOfBytes i.hash}:{rep}:{i.pyHash}"
+
+def handleDag (arg : String) : String :=
+  match (arg.splitOn "|").mapM parseNode with
+  | none => "bad-op"
+  | some nodes =>
+    let infos := evalDag nodes
+    let outs := (List.range nodes.length).map (fun k =>
+      match infos[k]?, nodes[k]? with
+      | some (some i), some (_, _, refs) =>
+        let kids := refs.filterMap (fun j => (infos[j]?).join)
+        showInfo i kids
+      | _, _ => "err")
+    "ok " ++ "|".intercalate outs
+
+def specKind (k : Int) : Option Spec.Kind :=
+  if k = -1 then some .ordinary else if k = 1 then some .pruned else if k = 2 then some .library
+  else if k = 3 then some .merkleProof else if k = 4 then some .merkleUpdate else none
+
+/-- the SPEC (Spec/Cell.lean) evaluated on a DAG: `mask:h0.h1.h2.h3:d0.d1.d2.d3` per node -/
+def handleSpecDag (arg : String) : String :=
+  match (arg.splitOn "|").mapM parseNode with
+  | none => "bad-op"
+  | some nodes =>
+    let infos : Array (Option Spec.SInfo) := nodes.foldl (fun acc (kind, bits, refs) =>
+      let kids : Option (List Spec.SInfo) := refs.mapM (fun i => (acc[i]?).join)
+      acc.push (do let ks ← kids; let k ← specKind kind; pure (Spec.node sha k bits ks))) #[]
+    let outs := infos.toList.map (fun o => match o with
+      | some s =>
+        let hs := (List.range 4).map (fun l => dashHex (s.hashAt l))
+        let ds := (List.range 4).map (fun l => toString (s.depthAt l))
+        s!"{s.mask}:{".".intercalate hs}:{".".intercalate ds}"
+      | none => "err")
+    "ok " ++ "|".intercalate outs
 
 def handle (op : String) (args : List String) : String :=
   match op, args with
@@ -22,6 +89,11 @@ def handle (op : String) (args : List String) : String :=
   | "crc32c", [d, big] => match hexArg d with
       | some bs => optHex (Model.crc32c bs (big == "1"))
       | none => "bad-op"
+  | "sha256", [d] => match hexArg d with
+      | some bs => "ok " ++ hexOfBytes (sha bs)
+      | none => "bad-op"
+  | "celldag", [d] => handleDag d
+  | "specdag", [d] => handleSpecDag d
   | _, _ => "bad-op"
 
 partial def loop (h : IO.FS.Stream) (out : IO.FS.Stream) : IO Unit := do
